@@ -110,3 +110,49 @@ Theorem C03_draining_server_is_not_ready_or_terminating : forall c r srv s,
     (notready_at c svc sp (sv_target s) \/ terminating_at c svc sp (sv_target s)).
 Proof. exact draining_server_is_not_ready_or_terminating. Qed.
 Print Assumptions C03_draining_server_is_not_ready_or_terminating.
+
+(* ------------------------------------------------------------------------------------------
+   End to end: the request is routed THROUGH THE GENERATED MAP FILES (composition with C04).
+   route_maps tree mo enc c r (Model/RouteMaps.v) = converter (sync_full), then the map
+   generator as config.WriteFrontendMaps drives it (Model/Maps.v rebuild_current, one chain per
+   map: _front_http_host, _front_https_host for the hosts with TLS, _front_defaulthost), then
+   HAProxy's lookups (Model/HAMatch.v lookup: str / beg / dir files in order; `tree` = beg maps
+   answer the longest key) chained as the frontends chain them, then the backend section with
+   the id that was looked up.  maps_agree_at ... := route_maps tree mo enc c r = route_impl c r.
+   Route.v has three path types and no wildcard hosts, so regex keys do not occur. *)
+From HI Require Import Model.Maps Model.RouteMaps Proofs.RouteMaps.
+
+(* At full strength (every cluster and request inside C04's alphabet guard) the composition is
+   FALSE: two matching rules of one host with the same declared length (/api Prefix and /api
+   ImplementationSpecific) are answered in the order the generator happens to lay them out
+   (here: the begin rule, moved to a priority file), Route.v's matcher says prefix first.
+   C04 documents that order as unspecified; the real pipeline behaves like the model
+   (corpus/C03/builtin-tie-prefix-begin.json, run on every check). *)
+Theorem C03_maps_agree_refuted : exists tree mo enc c r,
+  permitted mo /\ decls_in_guard c /\ request_in_guard r /\ ids_distinct enc c /\ ports_consistent c /\
+  ~ maps_agree_at tree mo enc c r.
+Proof. exact maps_agree_refuted. Qed.
+Print Assumptions C03_maps_agree_refuted.
+
+(* The strongest true variant: for both beg-map semantics, every permitted path-type-order,
+   every injective-on-the-cluster rendering of backend ids, every cluster whose effective
+   declarations are inside C04's guard (host/path alphabet, <= 1 trailing slash of a Prefix
+   path, ASCII, no "*." host), every request inside the guard (host without / ? #, path without
+   # ?) that is unambiguous (matching rules of the deciding host that are all exact, or have
+   the same declared length, lead to the same backend): the lookups over the generated maps
+   end in exactly the servers route_impl answers. *)
+Theorem C03_maps_agree_under_H : forall tree mo enc c r,
+  permitted mo -> decls_in_guard c -> request_in_guard r -> ids_distinct enc c -> unambiguous c r ->
+  maps_agree_at tree mo enc c r.
+Proof. exact maps_agree_under_H. Qed.
+Print Assumptions C03_maps_agree_under_H.
+
+(* C03 through the maps: composition of C04_path_precedence_current with
+   C03_route_full_spec_under_H -- the rule the documented matching selects decides the service
+   port whose designated servers answer the request that went through the generated maps. *)
+Theorem C03_end_to_end_under_H : forall tree mo enc c r,
+  ports_consistent c ->
+  permitted mo -> decls_in_guard c -> request_in_guard r -> ids_distinct enc c -> unambiguous c r ->
+  full_spec_for (route_maps tree mo enc c r) c r.
+Proof. exact end_to_end_under_H. Qed.
+Print Assumptions C03_end_to_end_under_H.
